@@ -23,6 +23,10 @@ CHECKS = {
    text="spec/Signature.tla computes the header (or reject) for the complete product of style x recv x reverse x pointer-ness x error x 0..3 additional arguments x named/unnamed x imported operands (2048 combinations); TLC checks the documented table as invariants (SrcOrRecvFirst, DstPlace, ArgsInOrder, ErrLast, NamesPreserved, IllegalRejected); every combination is run through the tool and the generated header is compared name by name and type by type",
    note="exhaustive over the stated product in both tiers; type expressions are compared as written in the generated file",
    tech="TLA+ signature model exhausted by TLC; every case replayed through the real tool and compared on the parsed function header"),
+ "C09": dict(cat="model_checking", sec="6 C09",
+   text="spec/Options.tla mirrors the copy structure of the parser (defaults -> interface entry -> per-method copy) and TLC checks Scope (interface default, method override, last notation wins) and DefaultsStable; an aliasing variant of the spec is shown to violate Scope (vacuity check); all 8748 placements of one focus setting at (A, A1, A2, B, B1) x backgrounds x duplicated notations are generated as two-interface files plus single-method files; effective settings are read off a probe struct pair in every function, own :skip honoured and foreign :skip absent, text identical to the single-method generation",
+   note="under :match none only style and match are observable (nothing else can matter to the output); quick samples 1 in 9 plus a fixed core, thorough binds all cases",
+   tech="TLA+ options-scoping model checked by TLC; TLC-enumerated notation placements replayed through the real tool and read back through a probe struct pair"),
  "C10": dict(cat="model_checking", sec="6 C10",
    text="static side: spec/Hooks.tla decides fit/reject and the emitted call for method shape x hook shape (5248 combinations incl. arity 0/1, operand mismatch, wrong results, unexported imported hook, missing, extra parameters none/all/fewer/wrong); TLC checks UnfitRejected, AdaptSound, OperandOrder, ErrNeedsErrResult on the model; every case is run through the tool and the call, its error check and its position relative to allocation and assignments are compared",
    note="the run-time side (exactly once, operands really shared, snapshots at call time) is decided by trace validation of executed generated functions (GenExec) once registered",
